@@ -9,9 +9,9 @@ SEEDED = os.path.join(ROOT, "seeded")
 
 def do_import():
     for d in sorted(os.listdir("/tmp/mut")):
-        if not (d.endswith("-out") or d.endswith("-out2") or d.endswith("-out3")):
+        if not (d.endswith("-out") or d.endswith("-out2") or d.endswith("-out3") or d.endswith("-out4")):
             continue
-        off = 4 if d.endswith("-out3") else 2 if d.endswith("-out2") else 0
+        off = 6 if d.endswith("-out4") else 4 if d.endswith("-out3") else 2 if d.endswith("-out2") else 0
         pid = d.split("-out")[0]
         for k in (1, 2):
             src = f"/tmp/mut/{d}"
@@ -47,6 +47,7 @@ def do_run(ids):
             for prop in [pid] + props_extra:
                 t0 = time.time()
                 env = dict(os.environ)
+                env["VERIF_EVIDENCE_DIR"] = os.path.join(ROOT, "work", "seeded-evidence")
                 r = subprocess.run(["./check", prop, "--quick"], cwd=ROOT, capture_output=True, text=True, env=env)
                 vio = [l for l in r.stdout.split("\n") if l.startswith("VIOLATION")]
                 detail = [l for l in r.stdout.split("\n") if "]: " in l or "] property" in l or "correspondence" in l][-2:]
